@@ -614,11 +614,19 @@ func (o *Options) GetFilter() filter.Filter {
 	return o.Filter
 }
 
+// maxIteratorSamplingRate is the largest usable IteratorSamplingRate: an
+// iterator draws its next sampling gap from [0, 2*rate).
+const maxIteratorSamplingRate = int(^uint(0)>>1) / 2
+
 func (o *Options) GetIteratorSamplingRate() int {
 	if o == nil || o.IteratorSamplingRate == 0 {
 		return DefaultIteratorSamplingRate
 	} else if o.IteratorSamplingRate < 0 {
 		return 0
+	}
+	// 2*rate must not overflow: rand.Intn panics on a non-positive argument.
+	if o.IteratorSamplingRate > maxIteratorSamplingRate {
+		return maxIteratorSamplingRate
 	}
 	return o.IteratorSamplingRate
 }
